@@ -5,7 +5,7 @@
 # (paths rewritten), applies the patch to /tmp/mw, runs /tmp/mv/check <prop>, then reverts the patch.
 set -u
 PATCH=$(realpath "$1"); shift
-MW=/tmp/mw; MV=/tmp/mv
+SLOT=${MUT_SLOT:-}; MW=/tmp/mw$SLOT; MV=/tmp/mv$SLOT
 if [ ! -d $MW ]; then git -C /repo worktree add --detach $MW HEAD >/dev/null 2>&1 || exit 2; fi
 git -C $MW checkout -q --detach "$(git -C /repo rev-parse HEAD)" 2>/dev/null
 git -C $MW checkout -q -- . ; git -C $MW clean -fdq -e target
